@@ -97,7 +97,7 @@ theorem comp_fold (all : List Str) (hH : NoBareClash all) :
 /-- `comp`: the range elements of all prefixes denote exactly the names given -/
 theorem comp_denotes (stems : List Str) (hnd : stems.Nodup) (hH : NoBareClash stems) :
     ((comp stems).flatMap fun e => (numsOf e.2).map (e.1 ++ ·)).Perm stems := by
-  have hs : (sortn stems).Perm stems := List.mergeSort_perm _ _
+  have hs : (sortn stems).Perm stems := stableSort_perm _ _
   have hH' : NoBareClash (sortn stems) := fun a ha h0 b hb hb' =>
     hH a (hs.subset ha) h0 b (hs.subset hb) hb'
   have := comp_fold (sortn stems) hH' (sortn stems) [] [] (by simpa using hs.nodup_iff.mpr hnd)
@@ -187,7 +187,7 @@ theorem elem_hosts_eq (p : Str) (runs : List Run) (suf : Str) :
 theorem compressInner_denotes (stems : List Str) (suf : Str) (hnd : stems.Nodup)
     (hH : NoBareClash stems) :
     ((compressInner stems suf).flatMap Elem.hosts).Perm (stems.map (· ++ suf)) := by
-  have h1 : (sortByKey (comp stems)).Perm (comp stems) := List.mergeSort_perm _ _
+  have h1 : (sortByKey (comp stems)).Perm (comp stems) := stableSort_perm _ _
   simp only [compressInner, List.flatMap_map, elem_hosts_eq]
   have h2 := (h1.flatMap_right fun e => ((numsOf e.2).map (e.1 ++ ·)).map (· ++ suf))
   refine h2.trans ?_
@@ -199,7 +199,7 @@ theorem compressInner_denotes (stems : List Str) (suf : Str) (hnd : stems.Nodup)
 header denote exactly the names compressed -/
 theorem compress_denotes (g : List Str) (hnd : g.Nodup) (hdom : NoStemClash g)
     (gs : List (List Elem)) (hgs : gs.Perm (compressGroups g)) : (hostsOf gs).Perm g := by
-  have hs : (sortn g).Perm g := List.mergeSort_perm _ _
+  have hs : (sortn g).Perm g := stableSort_perm _ _
   have hflat : (flat (suffixGroups g)).Perm g := by
     have := flat_fold (sortn g) []
     simp only [flat, List.flatMap_nil, List.nil_append] at this
